@@ -19,6 +19,8 @@ type Loop struct {
 	Cells     map[interface{}]bool // alloc cells / iterator cells possibly written in the loop
 	HeapSorts map[string]bool      // element sorts of slice heaps possibly written
 	AllHeaps  bool
+	Writers   map[string][]*ssa.Alloc // per heap key: slice variables whose rows the loop may write
+	Unknown   map[string]bool         // per heap key: some write goes through a slice the analysis cannot name
 	Maps      bool // some map may be updated
 	Chans     bool
 	KCell     interface{} // cell holding the range position
@@ -34,7 +36,7 @@ func findLoops(fn *ssa.Function, fset *token.FileSet, src []byte) []*Loop {
 			if succ.Dominates(b) { // back edge b -> succ
 				l := byHead[succ]
 				if l == nil {
-					l = &Loop{Head: succ, Blocks: map[*ssa.BasicBlock]bool{succ: true}, Cells: map[interface{}]bool{}, HeapSorts: map[string]bool{}}
+					l = &Loop{Head: succ, Blocks: map[*ssa.BasicBlock]bool{succ: true}, Cells: map[interface{}]bool{}, HeapSorts: map[string]bool{}, Writers: map[string][]*ssa.Alloc{}, Unknown: map[string]bool{}}
 					byHead[succ] = l
 				}
 				// blocks that reach b without passing through head
@@ -135,6 +137,7 @@ func analyseLoopEffects(l *Loop) {
 					if sl, ok := com.Args[0].Type().Underlying().(*types.Slice); ok {
 						for _, k := range heapKeysOf(sl.Elem()) {
 							l.HeapSorts[k] = true
+							noteWriter(l, k, com.Args[0])
 						}
 					}
 					l.HasCall = false
@@ -183,16 +186,21 @@ func markWrite(l *Loop, addr ssa.Value) {
 		markWrite(l, a.X)
 	case *ssa.IndexAddr:
 		// element of slice: heap of that element type; element of *array local: the alloc
+		ks := heapKeysOf(deref(a.Type()))
 		if al, ok := a.X.(*ssa.Alloc); ok {
-			l.Cells[al] = true
+			// element of an array-typed local: the array lives in a heap row of its own
+			for _, k := range ks {
+				l.HeapSorts[k] = true
+				l.Writers[k] = append(l.Writers[k], al)
+			}
 			return
 		}
-		ks := heapKeysOf(deref(a.Type()))
 		if len(ks) == 0 {
 			l.AllHeaps = true
 		}
 		for _, k := range ks {
 			l.HeapSorts[k] = true
+			noteWriter(l, k, a.X)
 		}
 	case *ssa.UnOp: // *p where p loaded from somewhere: unknown target
 		l.AllHeaps = true
@@ -201,4 +209,57 @@ func markWrite(l *Loop, addr ssa.Value) {
 	default:
 		l.AllHeaps = true
 	}
+}
+
+// noteWriter records which slice variable a heap write goes through.
+func noteWriter(l *Loop, key string, base ssa.Value) {
+	if ld, ok := base.(*ssa.UnOp); ok {
+		if al, ok := ld.X.(*ssa.Alloc); ok {
+			l.Writers[key] = append(l.Writers[key], al)
+			return
+		}
+	}
+	if sl, ok := base.(*ssa.Slice); ok { // slice of a fresh array (composite literal / varargs)
+		if al, ok := sl.X.(*ssa.Alloc); ok {
+			l.Writers[key] = append(l.Writers[key], al)
+			return
+		}
+	}
+	l.Unknown[key] = true
+}
+
+// selfContained: inside the loop the variable is only ever assigned the result of
+// appending to itself, a fresh make / literal, or nil — so the rows it can point to
+// are its row at loop entry or rows allocated during the loop.
+func selfContained(l *Loop, al *ssa.Alloc) bool {
+	if _, isArr := deref(al.Type()).Underlying().(*types.Array); isArr {
+		return true
+	}
+	for _, r := range *al.Referrers() {
+		st, ok := r.(*ssa.Store)
+		if !ok || st.Addr != al || !l.Blocks[st.Block()] {
+			continue
+		}
+		switch v := st.Val.(type) {
+		case *ssa.Call:
+			if b, ok := v.Call.Value.(*ssa.Builtin); ok && b.Name() == "append" {
+				if ld, ok := v.Call.Args[0].(*ssa.UnOp); ok && ld.X == al {
+					continue
+				}
+			}
+			return false
+		case *ssa.MakeSlice:
+		case *ssa.Slice:
+			if _, ok := v.X.(*ssa.Alloc); !ok {
+				return false
+			}
+		case *ssa.Const:
+			if !v.IsNil() {
+				return false
+			}
+		default:
+			return false
+		}
+	}
+	return true
 }
